@@ -19,7 +19,7 @@ PARS = ['\n\n', '\n \n', '\n\n\n', ' \n\t\n ', '\\par', '\\par ', '\n\\par\n', '
         '\r\n\r\n', '\n\x0c\n', '\r\n \r\n', '\n\x0b\n']
 
 VANISH = ['com', 'label', 'index', 'unk', 'unkarg', 'skip', 'tikz', 'ltskip', 'vanish2', 'unkenv_b', 'unkenv_e',
-          'lang', 'xspace', 'vspace', 'ygap', 'ytodo', 'olang', 'ctlsym']
+          'lang', 'xspace', 'vspace', 'ygap', 'ytodo', 'olang', 'ctlsym', 'olangs']
 USERDEFS = '\\newcommand{\\ygap}[1]{ }\\newcommand{\\ytodo}[1]{% off\n}\n'
 
 
@@ -99,6 +99,12 @@ def render(rnd, atoms, lang_ml=False):
             s += '\\begin{otherlanguage}{' + rnd.choice(['german', 'english', 'french']) + '}' \
                  + rnd.choice(['', '', '%hoQ\n']) + '\\end{otherlanguage}'
             k = 'unk'
+        elif k == 'olangs':
+            # the starred environment: its end is plain markup (no blanks skipped behind it)
+            inner = rnd.choice(['', '', '\n', ' ', '%hoQ\n'])
+            s += '\\begin{otherlanguage*}{' + rnd.choice(['german', 'english']) + '}' + inner + '\\end{otherlanguage*}'
+            if inner and inner[0] != '%':
+                counts = True
         elif k == 'ctlsym':
             # a control symbol: vanishes, but (TeX) blanks behind it are not skipped
             s += rnd.choice(['\\/', '\\/', '\\-', '\\+'])
@@ -211,10 +217,10 @@ class C05(core.Check):
         if not ml:
             atoms = [a for a in atoms if a != 'lang']
         else:
-            atoms = [a for a in atoms if a != 'olang']
+            atoms = [a for a in atoms if a not in ('olang', 'olangs')]
         if ctx in ('heading', 'cell', 'item', 'footnote') or ctx.startswith('straddle'):
             # no paragraph-forming environments / unbalanced env delimiters inside these arguments
-            atoms = [a for a in atoms if a not in ('unkenv_b', 'unkenv_e', 'olang')]
+            atoms = [a for a in atoms if a not in ('unkenv_b', 'unkenv_e', 'olang', 'olangs')]
         if atoms.count('unkenv_b') != atoms.count('unkenv_e'):
             atoms = [a for a in atoms if a not in ('unkenv_b', 'unkenv_e')]
         sep, counts, haspar = render(rnd, atoms, ml)
